@@ -108,6 +108,30 @@ def body():
             data = [e for e in evs if e["e"] == "Data"]
             rexecs.append((key, [{"e": "Rogue", "dev": dev, "mutual": strust != "-", "cCert": cert, "cOK": ok, "cPoss": poss, "wellformed": dev not in MALFORMED, "srvrc": hr[0]["rc"], "peerdone": bool(view.get("completed")),
                                   "delivered": bool(data and data[0].get("rc") == 1 and data[0].get("got") == "70696e67")}], view))
+    # ... and the library client against an independent server (server-auth handshakes): deviation -> (possession proved, sequence well formed)
+    SDEV = {257: {"honest": (True, True), "ske_wrong_key": (False, True), "ske_stale_random": (False, True), "no_ske": (False, False), "finished_wrong": (True, False), "finished_plain": (True, False), "no_ccs": (True, False)},
+            772: {"honest": (True, True), "no_cv": (False, False), "no_cert": (False, False), "cv_wrong_key": (False, True), "cv_stale_transcript": (False, True), "cv_client_context": (False, True), "finished_wrong": (True, False)}}
+    SDEV[771] = SDEV[257]
+    sjobs = []
+    for proto, sp in ((257, "tlcp"), (771, "srv"), (772, "srv")):
+        sjobs += [(proto, sp + "_d2", "trust_root", d) for d in SDEV[proto]]
+        sjobs += [(proto, sp + "_d2", "trust_evil", "honest"), (proto, sp + "_untrusted", "trust_root", "honest"), (proto, sp + "_expired", "trust_root", "honest"), (proto, sp + "_d3", "trust_root", "honest")]
+    def sone(j):
+        proto, scred, ctrust, dev = j
+        return j, roguepeer.run_server(creds, exe, proto, scred, ctrust, dev)
+    with cf.ThreadPoolExecutor(8) as ex:
+        for j, (view, evs, san) in ex.map(sone, sjobs):
+            proto, scred, ctrust, dev = j
+            key = "c09:rogue-server:p%d:scred=%s:ctrust=%s:%s" % (proto, scred, ctrust, dev)
+            c.count(1, key)
+            hr = [e for e in evs if e["e"] == "HsRet"]
+            if san or not hr or not any(e["e"] == "End" for e in evs):
+                c.violation(key + ":crash", "the library client crashed / tripped a sanitizer / never returned against a deviating server: %s" % str(san)[:300], {"peer_view": view, "client_events": evs})
+                continue
+            poss, wf = SDEV[proto][dev]
+            data = [e for e in evs if e["e"] == "Data"]
+            rexecs.append((key, [{"e": "RogueS", "dev": dev, "sOK": ctrust == "trust_root" and scred.split("_")[1] in ("d2", "d3"), "sPoss": poss, "wellformed": wf, "clirc": hr[0]["rc"],
+                                  "delivered": bool(data and data[0].get("rc") == 1 and data[0].get("got") == "70696e67")}], view))
     rej2, st2 = vlib.validate("RogueTrace", [e[1] for e in rexecs], tag="c09r")
     c.cov["traces_validated_against_impl"] += len(rexecs)
     c.cov["rogue_peer_handshakes"] = len(rexecs)
